@@ -1513,6 +1513,21 @@ def mon_c07(ix: Index):  # noqa: C901, PLR0912
                 out.append(V("C07", "C07/terminal-outcome-while-work-parked/%s" % s_.get("opkind"),
                              "invocation %d returned %s although %s (%s) was parked and no enclosing map/parallel had been decided by its completion policy"
                              % (inv, v.get("Status"), s_["path"], s_.get("opkind")), s_["i"]))
+    # lock-order sanitizer (dw/lockorder.py): feasible deadlocks among the SDK's own locks, whether or not they struck in this run
+    edges = acquires = 0
+    for e in ix.trace:
+        if e["kind"] == "lockorder":
+            edges = max(edges, e.get("edges", 0))
+            acquires += e.get("acquires", 0)
+            for iv in e.get("inversions") or []:
+                out.append(V("C07", "C07/lock-order-inversion/%s|%s" % tuple(sorted([str(iv.get("a")), str(iv.get("b"))])),
+                             "threads %s took the locks created at %s and %s in opposite orders (at %s and %s) with no common gate lock: a feasible deadlock"
+                             % (iv.get("threads"), iv.get("a"), iv.get("b"), iv.get("ab_at"), iv.get("ba_at")), e["i"]))
+        elif e["kind"] == "lockorder_self":
+            out.append(V("C07", "C07/self-deadlock/%s" % e.get("site"), "thread %s blocks on the non-reentrant lock created at %s which it already holds (at %s)"
+                         % (e.get("thread"), e.get("site"), e.get("at")), e["i"]))
+    ix.r.setdefault("stats", {})["c07_lock_order_edges_seen"] = edges
+    ix.r["stats"]["c07_lock_acquisitions_observed"] = acquires
     stop = ix.r.get("stop")
     if stop == "stuck-pending":
         out.append(V("C07", "C07/execution-never-woken", "execution is PENDING with no timer armed, no external event awaited and nothing delivered during the invocation"))
